@@ -501,6 +501,13 @@ func genC18(out, tier string, rng *rand.Rand) {
 						// the writer runs completely while the scan is parked with the lock released
 						sched = append(sched, 1, 1, 1, 1)
 						add(en, scan, sched, [][]Call{{w}}, fmt.Sprintf("scan%d-h%d-w%d-p%d", si, h, kind, pos))
+						if kind == 0 || kind == 2 {
+							// after the scan has finished: a second write to the row written during the hand-over,
+							// then a read -- the first write must still be there (no stale copy of the row may
+							// have survived the scan)
+							jobs[len(jobs)-1].final = []Call{c18Writer(3-kind, scanKey(target), h*10+kind+500), final[0], c18Writer(kind, scanKey(target), h*10+kind+600), final[0]}
+							jobs[len(jobs)-1].tag += "+rewrite"
+						}
 					}
 				}
 			}
